@@ -41,13 +41,15 @@ Record areq := {
   q_prompt : prompt;
   q_noscope : bool;
   q_hint_bad : bool;       (* id_token_hint present and not verifiable *)
-  q_fault : afault }.
+  q_fault : afault;
+  q_dups : list string }.  (* redirect_uri sent more than once (query and / or body): the values BEFORE the last one,
+                              in the order of Request.Form; the form decoder keeps the last one = q_uri *)
 
 Definition has_ro (q : areq) : bool := match q_reqobj q with RP_None => false | _ => true end.
 
-(* every redirect_uri the request mentions: the plain parameter and the one inside a request object *)
+(* every redirect_uri the request mentions: every value of the plain parameter and the one inside a request object *)
 Definition candidates (q : areq) : list string :=
-  q_uri q :: match q_reqobj q with RP_Signed o => [ro_uri o] | _ => [] end.
+  q_dups q ++ q_uri q :: match q_reqobj q with RP_Signed o => [ro_uri o] | _ => [] end.
 
 (* CopyRequestObjectToAuthRequest: present claims overwrite the parameters, RequestParam is cleared
    (client_id and response_type are never overwritten; scopes stay non-empty / empty as they were) *)
@@ -58,7 +60,7 @@ Definition merge_ro (q : areq) (o : robj) : areq :=
      q_mode := if String.eqb (ro_mode o) "" then q_mode q else ro_mode o;
      q_malformed := q_malformed q; q_reqobj := RP_None;
      q_prompt := match ro_prompt o with Some p => p | None => q_prompt q end;
-     q_noscope := q_noscope q; q_hint_bad := q_hint_bad q; q_fault := q_fault q |}.
+     q_noscope := q_noscope q; q_hint_bad := q_hint_bad q; q_fault := q_fault q; q_dups := q_dups q |}.
 
 (* ParseRequestObject: inl garbage? = error (true: ParseToken failed, a plain error),
    inr q' = verified and merged *)
